@@ -572,7 +572,7 @@ class C47(Check):
     def run_shard(self, tier, seed, shard, nshards):
         from vlib import hyp
         res = ShardResult()
-        n = 25000 if tier == "thorough" else 2000
+        n = 12000 if tier == "thorough" else 2000
         cnt = [0]
 
         def one(case):
